@@ -144,6 +144,7 @@ def run(ctx: Ctx):
 
     # ---- R08.b pairing guards -------------------------------------------------------------------
     ctx.rule("R08.b", "state/derivative pairing: check_components runs first in make_ode and ODE.__init__ for every component; d<x>_dt always goes through find_state, which raises on no match", floor=8)
+    check_component_tags_verbatim(ctx, "R08.b")
     for qn in ("make_ode", "ODE.__init__"):
         f = sm.func("ode.py", qn)
         first = [s for s in f.node.body if not (isinstance(s, ast.Expr) and isinstance(s.value, ast.Constant))][0]
@@ -519,3 +520,43 @@ def check_all_items_registered(ctx: Ctx, rule: str):
         ctx.fail(rule, key, f"TreeToODE.ode registers the atoms of `{txt[:90]}`, a regrouping of the line's items ({', '.join(lossy) or 'dict / set'}): items can be merged or dropped by it, so an assignment next to a comment line inside a block can silently disappear from the model", tf.where(inner))
     else:
         ctx.undecided(rule, key, f"TreeToODE.ode registers the atoms of `{txt[:90]}`; whether that is every item of the line is not decided", tf.where(inner))
+
+
+def check_component_tags_verbatim(ctx: Ctx, rule: str):
+    """Which component an atom belongs to is the quoted tag as written (quotes removed): pairing of states with their
+    derivatives, duplicate detection across components and `check_components` all compare these strings.  A tag that is
+    normalised on the way (stripped, case-folded, split) merges components the text keeps apart - a derivative declared
+    under another tag than its state is then accepted."""
+    from .c17 import TEXT_TRANSFORMS
+
+    f = ctx.sm.func("transformer.py", "find_components", required=False)
+    if f is None:
+        ctx.undecided(rule, "src/gotranx/transformer.py::find_components::verbatim", "find_components not found; how component tags are read is not judged", "")
+        return
+    adds = [c for c in ast.walk(f.node) if isinstance(c, ast.Call) and isinstance(c.func, ast.Attribute) and c.func.attr in ("append", "add", "extend", "insert")]
+    bad = []
+    for c in adds:
+        for a in c.args:
+            for x in ast.walk(a):
+                if isinstance(x, ast.Call) and isinstance(x.func, ast.Attribute) and x.func.attr in TEXT_TRANSFORMS | {"casefold", "title", "capitalize", "swapcase"}:
+                    bad.append(x)
+    # comprehension form: tuple(remove_quotes(str(t)) for t in ...)
+    for x in ast.walk(f.node):
+        if isinstance(x, (ast.GeneratorExp, ast.ListComp)):
+            for y in ast.walk(x.elt):
+                if isinstance(y, ast.Call) and isinstance(y.func, ast.Attribute) and y.func.attr in TEXT_TRANSFORMS | {"casefold", "title", "capitalize", "swapcase"}:
+                    bad.append(y)
+    ctx.check(not bad, rule, f.key("verbatim"), "component tags are the quoted text, quotes removed, nothing else", f"find_components rewrites a component tag with `{norm(bad[0])[:70] if bad else ''}`: tags the text keeps apart are merged into one component, so a derivative (or a second definition) under another tag than its state is accepted", f.where(bad[0]) if bad else f.where())
+    rq = ctx.sm.func("transformer.py", "remove_quotes", required=False)
+    if rq is not None:
+        from . import util as _u
+
+        v = _u.value_of(ctx, rq)
+        from sa import av as _a
+
+        calls = [m for m in _a.find_all(v, "mcall")]
+        only_quotes = bool(calls) and all(m[2] == "replace" and len(m[3]) == 2 and m[3][0] in (_a.C("'"), _a.C('"')) and m[3][1] == _a.C("") for m in calls) and not _a.has_unk(v)
+        if _a.has_unk(v):
+            ctx.undecided(rule, rq.key("only-quotes"), "what remove_quotes returns is not understood", rq.where())
+        else:
+            ctx.check(only_quotes, rule, rq.key("only-quotes"), "remove_quotes removes the two quote characters only", f"remove_quotes computes `{_a.show(v)[:100]}`: more than the quote characters is removed from (or changed in) a component tag", rq.where())
